@@ -4,47 +4,45 @@
    checkpoints do to the table files); `run true` executes a history with its interruptions,
    `run false` skips them; `oracle` is the comparison the correspondence check applies to the
    two runs of the REAL database (coq/Corr/C04.v spec_ok), `known_class_of` the recorded finding
-   classes (coq/Corr/C04.v known_class). *)
+   class (coq/Corr/C04.v known_class). *)
 From Coq Require Import ZArith List Bool.
-From TV Require Import Model.Persist Proof.Persist Proof.PersistSim Proof.PersistWit Proof.PersistState Proof.PersistCor.
+From TV Require Import Model.Persist Proof.Persist Proof.PersistRel Proof.PersistSim Proof.PersistWit Proof.PersistState Proof.PersistCor.
 Import ListNotations.
 Open Scope Z_scope.
 
-(* every history of the modelled language (CREATE / DROP TABLE, multi-row INSERT with and without
-   PRIMARY KEY / AUTO_INCREMENT, DELETE, UPDATE, PRAGMA wal=ON|OFF, queries; interruptions
-   close+open, drop+open, Database::checkpoint(), PRAGMA wal_checkpoint at arbitrary points), WAL
-   on or off at the start: outside the recorded classes every statement returns the same with and
-   without the interruptions *)
+(* every history of the modelled language (CREATE / DROP / re-CREATE TABLE, multi-row INSERT with and
+   without PRIMARY KEY / AUTO_INCREMENT, DELETE, UPDATE, PRAGMA wal=ON|OFF, queries; interruptions
+   close+open, drop+open, Database::checkpoint(), PRAGMA wal_checkpoint at arbitrary points - INSERTs
+   after a reopen included), WAL on or off at the start: outside the recorded class every statement
+   returns the same with and without the interruptions *)
 Theorem persist_observational_id :
   forall wal h, in_lang h = true ->
     known_class_of wal h (run true (init wal) h) = 0 ->
     oracle h (run true (init wal) h) (run false (init wal) h) = true.
 Proof. exact persist_observational_id_l. Qed.
 
-(* Database::checkpoint() alone (it truncates the WAL without replaying it) never changes a
-   result: no class restriction at all *)
+(* Database::checkpoint() alone (it truncates the WAL without replaying it) never changes a result *)
 Theorem checkpoint_api_id :
   forall wal h, in_lang h = true -> forallb only_api h = true ->
     oracle h (run true (init wal) h) (run false (init wal) h) = true.
 Proof. exact checkpoint_api_id_l. Qed.
 
-(* the same with purely syntactic hypotheses.  close() + open and Database::checkpoint() at arbitrary
-   points (also with the WAL switched on and off inside the history) change nothing as long as no
-   INSERT follows a reopen *)
+(* close() + open and Database::checkpoint() at arbitrary points (also with the WAL switched on and
+   off inside the history, also with INSERTs after the reopen) never change a result *)
 Theorem close_reopen_id :
-  forall wal h, in_lang h = true -> forallb no_replay h = true -> no_ins_after false h = true ->
+  forall wal h, in_lang h = true -> forallb no_replay h = true ->
     oracle h (run true (init wal) h) (run false (init wal) h) = true.
 Proof. exact close_reopen_id_l. Qed.
 
-(* with the WAL never enabled, all four interruptions (PRAGMA wal_checkpoint and drop + open included)
-   change nothing as long as no INSERT follows a reopen *)
+(* with the WAL never enabled, none of the four interruptions (PRAGMA wal_checkpoint and drop + open
+   included) ever changes a result *)
 Theorem no_wal_id :
-  forall h, in_lang h = true -> forallb no_wal_on h = true -> no_ins_after false h = true ->
+  forall h, in_lang h = true -> forallb no_wal_on h = true ->
     oracle h (run true (init false) h) (run false (init false) h) = true.
 Proof. exact no_wal_id_l. Qed.
 
-(* the persistent state itself (what no query shows directly): outside the classes an interruption
-   at the end of any history leaves every table as it was - leaf rows with their row ids, header
+(* the persistent state itself (what no query shows directly): outside the class an interruption at
+   the end of any history leaves every table as it was - leaf rows with their row ids, header
    row_count, header AUTO_INCREMENT counter, PRIMARY KEY index (`exec true` = the state reached) *)
 Theorem interruption_preserves_tables :
   forall wal h o, is_int o = true -> in_lang (h ++ [o]) = true ->
@@ -52,17 +50,9 @@ Theorem interruption_preserves_tables :
     forall t, s_tab (exec true (init wal) (h ++ [o])) t = s_tab (exec true (init wal) h) t.
 Proof. exact interruption_preserves_tables_l. Qed.
 
-(* the faithful model does NOT satisfy the property inside class 1: insert, close + open,
-   insert - the second INSERT fails (next_row_id restarts at 1) where the uninterrupted run inserts *)
-Theorem reopen_refuted :
-  in_lang wit1 = true /\ known_class_of false wit1 (run true (init false) wit1) = 1
-  /\ oracle wit1 (run true (init false) wit1) (run false (init false) wit1) = false
-  /\ nth_error (run true (init false) wit1) 3 = Some OErr
-  /\ nth_error (run false (init false) wit1) 2 = Some (OOk 1).
-Proof. exact reopen_refuted_l. Qed.
-
-(* ... nor inside class 2: PRAGMA wal_checkpoint (and drop + open) copy an old page image from the
-   WAL over a page that changed while the WAL was off: a row disappears, COUNT( * ) keeps counting it *)
+(* the faithful model does NOT satisfy the property inside class 2: PRAGMA wal_checkpoint (and drop +
+   open) copy an old page image from the WAL over a page that changed while the WAL was off: a row
+   disappears, COUNT( * ) keeps counting it *)
 Theorem checkpoint_refuted :
   in_lang wit2 = true /\ known_class_of true wit2 (run true (init true) wit2) = 2
   /\ oracle wit2 (run true (init true) wit2) (run false (init true) wit2) = false
@@ -72,21 +62,35 @@ Theorem checkpoint_refuted :
   /\ oracle wit2y (run true (init true) wit2y) (run false (init true) wit2y) = false.
 Proof. exact checkpoint_refuted_l. Qed.
 
-(* non-vacuity: a history with all four interruptions, WAL on, PRIMARY KEY AUTO_INCREMENT table,
-   DELETE and UPDATE between them, is inside the language and outside every class *)
+(* historical: the witnesses of the two repaired findings (F-C04-1: INSERT after a reopen failed,
+   next_row_id restarted at 1, /repo 60cb117; F-C04-3: a table dropped and created again lost its rows
+   at the reopen, /repo affacca) are inside the language, outside every class and satisfy the
+   property on the model of the repaired code; the counter continues at 2 after the reopen *)
+Theorem repaired_witnesses :
+  in_lang wit1 = true /\ known_class_of false wit1 (run true (init false) wit1) = 0
+  /\ oracle wit1 (run true (init false) wit1) (run false (init false) wit1) = true
+  /\ nth_error (run true (init false) wit1) 3 = Some (OOk 1)
+  /\ s_next (fst (step (fst (step (fst (step (init false) (Create 0 0))) (Ins 0 [(Some 1, 10)]))) ReopenClose)) = 2
+  /\ in_lang wit3 = true /\ known_class_of false wit3 (run true (init false) wit3) = 0
+  /\ oracle wit3 (run true (init false) wit3) (run false (init false) wit3) = true.
+Proof. exact repaired_witnesses_l. Qed.
+
+(* non-vacuity: histories with all four interruptions, WAL on, PRIMARY KEY AUTO_INCREMENT table, INSERTs
+   after the reopens, a table dropped and re-created, inside the language and outside the class; and
+   histories meeting the hypotheses of the two corollaries *)
 Example c04_witness :
   in_lang good = true /\ known_class_of true good (run true (init true) good) = 0
   /\ oracle good (run true (init true) good) (run false (init true) good) = true
-  /\ nth_error (run true (init true) good) 11
-     = Some (OQ [TPresent [[Some 2; Some 12]] (Some 1) [[]; [[Some 2; Some 12]]; []; []; []; []; []; []];
-                 TPresent [] (Some 0) [[]; []; []; []; []; []; []; []]; TAbsent]).
+  /\ nth_error (run true (init true) good) 17
+     = Some (OQ [TPresent [[Some 2; Some 14]; [Some 3; Some 13]; [Some 4; Some 16]] (Some 3)
+                          [[]; [[Some 2; Some 14]]; [[Some 3; Some 13]]; [[Some 4; Some 16]]; []; []; []; []];
+                 TPresent [[Some 5; Some 15]] (Some 1) [[]; []; []; []; [[Some 5; Some 15]]; []; []; []]; TAbsent]).
 Proof. exact good_ok. Qed.
-
 Example c04_witness_cor :
-  in_lang cor1 = true /\ forallb no_replay cor1 = true /\ no_ins_after false cor1 = true
-  /\ in_lang cor2 = true /\ forallb no_wal_on cor2 = true /\ no_ins_after false cor2 = true
-  /\ nth_error (run true (init false) cor2) 10
-     = Some (OQ [TAbsent; TPresent [[Some 2; Some 12]] (Some 1) [[]; [[Some 2; Some 12]]; []; []; []; []; []; []]; TAbsent]).
+  in_lang cor1 = true /\ forallb no_replay cor1 = true
+  /\ in_lang cor2 = true /\ forallb no_wal_on cor2 = true
+  /\ nth_error (run true (init false) cor2) 13
+     = Some (OQ [TAbsent; TPresent [[None; Some 13]] (Some 1) [[]; []; []; []; []; []; []; []]; TAbsent]).
 Proof. exact cor_witness. Qed.
 
 Check persist_observational_id :
@@ -97,20 +101,15 @@ Check checkpoint_api_id :
   forall wal h, in_lang h = true -> forallb only_api h = true ->
     oracle h (run true (init wal) h) (run false (init wal) h) = true.
 Check close_reopen_id :
-  forall wal h, in_lang h = true -> forallb no_replay h = true -> no_ins_after false h = true ->
+  forall wal h, in_lang h = true -> forallb no_replay h = true ->
     oracle h (run true (init wal) h) (run false (init wal) h) = true.
 Check no_wal_id :
-  forall h, in_lang h = true -> forallb no_wal_on h = true -> no_ins_after false h = true ->
+  forall h, in_lang h = true -> forallb no_wal_on h = true ->
     oracle h (run true (init false) h) (run false (init false) h) = true.
 Check interruption_preserves_tables :
   forall wal h o, is_int o = true -> in_lang (h ++ [o]) = true ->
     known_class_of wal (h ++ [o]) (run true (init wal) (h ++ [o])) = 0 ->
     forall t, s_tab (exec true (init wal) (h ++ [o])) t = s_tab (exec true (init wal) h) t.
-Check reopen_refuted :
-  in_lang wit1 = true /\ known_class_of false wit1 (run true (init false) wit1) = 1
-  /\ oracle wit1 (run true (init false) wit1) (run false (init false) wit1) = false
-  /\ nth_error (run true (init false) wit1) 3 = Some OErr
-  /\ nth_error (run false (init false) wit1) 2 = Some (OOk 1).
 Check checkpoint_refuted :
   in_lang wit2 = true /\ known_class_of true wit2 (run true (init true) wit2) = 2
   /\ oracle wit2 (run true (init true) wit2) (run false (init true) wit2) = false
@@ -118,11 +117,18 @@ Check checkpoint_refuted :
      = Some (OQ [TPresent [[Some 1; Some 10]] (Some 2) [[[Some 1; Some 10]]; []; []; []; []; []; []; []]; TAbsent; TAbsent])
   /\ in_lang wit2y = true /\ known_class_of true wit2y (run true (init true) wit2y) = 2
   /\ oracle wit2y (run true (init true) wit2y) (run false (init true) wit2y) = false.
+Check repaired_witnesses :
+  in_lang wit1 = true /\ known_class_of false wit1 (run true (init false) wit1) = 0
+  /\ oracle wit1 (run true (init false) wit1) (run false (init false) wit1) = true
+  /\ nth_error (run true (init false) wit1) 3 = Some (OOk 1)
+  /\ s_next (fst (step (fst (step (fst (step (init false) (Create 0 0))) (Ins 0 [(Some 1, 10)]))) ReopenClose)) = 2
+  /\ in_lang wit3 = true /\ known_class_of false wit3 (run true (init false) wit3) = 0
+  /\ oracle wit3 (run true (init false) wit3) (run false (init false) wit3) = true.
 
 Print Assumptions persist_observational_id.
 Print Assumptions checkpoint_api_id.
 Print Assumptions close_reopen_id.
 Print Assumptions no_wal_id.
 Print Assumptions interruption_preserves_tables.
-Print Assumptions reopen_refuted.
 Print Assumptions checkpoint_refuted.
+Print Assumptions repaired_witnesses.
